@@ -22,17 +22,20 @@ META = dict(
                'rotated with the model\'s rotatedirections(T), evaluated at p as a homogeneous function, equals the original at T p '
                '(eval_rotate), via the row specification of npowtrans (npowRow_spec: multinomial rows from the powercoeff obligation, pair / '
                'triplet products through directmult, padding by powers of x^2+y^2+z^2); instantiated on the live 2-D / 3-D tables '
-               '(rotate_exact_tab3/2) through the table obligations shared with C16.  (2) Inverse, PARTIAL: only the algebraic core is a '
-               'theorem (neumann_identity: truncated Neumann series times (A+B) = 1 - X^(N+1) in any ring); that inversecoeff implements it '
-               'with the stated truncation (inv(a)*a = 1 through order Nmax + n_lead under the two ValueError guards) is checked '
-               'differentially against the exact model and by a direct through-order oracle, not proved.',
+               '(rotate_exact_tab3/2) through the table obligations shared with C16.  (2) Inverse: inverse_through_order — under exactly the two ValueError guards (isotropic leading '
+               'term with a two-sided inverse, every other power above it), consistent shape and the angular-order guard of the Neumann loop, '
+               'inversecoeff(a,Nmax) times a equals 1 modulo radial order > Nmax + n_lead; formalised as: in EVERY commutative ring S with a '
+               'nilpotent t (t^(B+1)=0, B=Nmax+n_lead) the two evaluations with radial factor t^n multiply to exactly 1 (S=K[t]/(t^(B+1)) gives '
+               'the coefficientwise statement); built on neumann_identity and a product rule with local multiplicativity; instantiated on the '
+               'live index tables over every ring (inverse_tab3).  Python rotate / irotate / inv / rotatedirections are tied to the model '
+               'differentially (whole npowtrans array; coefficient lists) plus direct oracles.',
     level_note='Trusted: Lean kernel + standard axioms; table dump; harness. rotatedirections is modelled row-wise (each row as the '
                'expression the loops assign to it), tied to the loops by exact comparison of the whole array on every run. '
                'np.linalg.inv is modelled by exact Gauss-Jordan in the driver; in the theorem the leading inverse is any two-sided inverse.',
     technique='Lean 4 proofs over a polymorphic executable model + table obligations shared with C16 + differential runs',
     lean_modules=['OnsagerModel.C16', 'OnsagerModel.C16Ten', 'OnsagerModel.C17', 'Generated.C16Facts', 'OnsagerProofs.C16',
                   'OnsagerProofs.C16Proj', 'OnsagerProofs.C16Sound', 'OnsagerProofs.C17', 'OnsagerProofs.C17Rows',
-                  'OnsagerProofs.C17Sound', 'OnsagerProofs.C16Tie3a',
+                  'OnsagerProofs.C17Inv', 'OnsagerProofs.C17Sound', 'OnsagerProofs.C16Tie3a',
                   'OnsagerProofs.C16Tie3b', 'OnsagerProofs.C16Tie3c', 'OnsagerProofs.C16Tie3d', 'OnsagerProofs.C16Tie3e',
                   'OnsagerProofs.C16Tie2', 'OnsagerProofs.C16Tie', 'OnsagerProofs.C17Tie'],
     theorems=[],       # filled below
@@ -47,9 +50,11 @@ META = dict(
 )
 META['theorems'] = ['Onsager.C16.eval_rotate_of_rows', 'Onsager.C16.linPowRow_dot', 'Onsager.C16.shellMul_spec',
                     'Onsager.C16.powtransRow_spec', 'Onsager.C16.npowRowK_spec', 'Onsager.C16.npowRow_spec', 'Onsager.C16.eval_rotate',
-                    'Onsager.C16.sem17_of_checks', 'Onsager.C16.neumann_identity']
+                    'Onsager.C16.sem17_of_checks', 'Onsager.C16.neumann_identity', 'Onsager.C16.eval_mul_local',
+                    'Onsager.C16.eval_invLoop', 'Onsager.C16.inverse_through_order', 'Onsager.C16.semMul_mapK_of_checks']
 META['tie_theorems'] = ['Onsager.C16.tab3_sem', 'Onsager.C16.tab2_sem', 'Onsager.C16.tab3_sem17', 'Onsager.C16.tab2_sem17',
-                        'Onsager.C16.rotate_exact_tab3', 'Onsager.C16.rotate_exact_tab2']
+                        'Onsager.C16.rotate_exact_tab3', 'Onsager.C16.rotate_exact_tab2', 'Onsager.C16.tab3_semMul',
+                        'Onsager.C16.tab2_semMul', 'Onsager.C16.inverse_tab3']
 
 DRIVER = 'Drive/C17.lean'
 
